@@ -1,13 +1,14 @@
 import Sm9.Proofs.Pow
 import Sm9.Proofs.GtOrder
+import Sm9.Proofs.Codec
 import Sm9.Model.Api
 /-!
 # C11 — Gt is a commutative group of order r and pow is exponentiation
 The laws hold on **all** of Fq12 (the model's Karatsuba product and CH-SQR2 squaring),
 hence on every pairing value; every output of a final exponentiation has order dividing r
 (`gt_order`), so exponents reduce modulo r on Gt; `inverse` is the field inverse.
-The statements about the 384-byte encoding (== iff equal encodings, limbs < q) are decided
-on the real crate by `gtk.ops`.
+`g == h` (structural equality of canonical coefficients) holds exactly when the 384-byte
+encodings are equal (`to_slice_inj`), and every 32-byte limb of an encoding is below q.
 -/
 namespace Sm9.C11
 
@@ -44,5 +45,31 @@ theorem gt_pow_add (f g : Fq12) (h : f.final_exp = .ok (some g)) (a b : Fr) :
     Api.gtPow g a * Api.gtPow g b = Api.gtPow g (a + b) := pow_add_mod g (Sm9.gt_order f g h).1 a b
 /-- `Gt::inverse`: `Some` of the multiplicative inverse for every non-zero element -/
 theorem inverse_correct (g : Fq12) (hg : g ≠ 0) : ∃ i, g.inverse = some i ∧ i * g = 1 := Fq12.inverse_correct g hg
+
+/-- the 384-byte encoding is injective: `==` holds exactly when the encodings are equal -/
+theorem to_slice_inj (g h : Fq12) (e : Api.fq12ToSlice g = Api.fq12ToSlice h) : g = h := by
+  have l2 : ∀ x : Fq2, (Api.fq2ToSlice x).length = 64 := Api.fq2ToSlice_length
+  have l4 : ∀ x : Fq4, (Api.fq4ToSlice x).length = 128 := by
+    intro x; unfold Api.fq4ToSlice; rw [List.length_append, l2, l2]
+  have i4 : ∀ x y : Fq4, Api.fq4ToSlice x = Api.fq4ToSlice y → x = y := by
+    intro x y h4
+    unfold Api.fq4ToSlice at h4
+    have := List.append_inj h4 (by rw [l2, l2])
+    cases x; cases y
+    simp only [Fq4.mk.injEq]
+    exact ⟨Api.fq2ToSlice_inj this.2, Api.fq2ToSlice_inj this.1⟩
+  unfold Api.fq12ToSlice at e
+  have h1 := List.append_inj e (by rw [List.length_append, List.length_append, l4, l4, l4, l4])
+  have h2 := List.append_inj h1.1 (by rw [l4, l4])
+  cases g; cases h
+  simp only [Fq12.mk.injEq]
+  exact ⟨i4 _ _ h1.2, i4 _ _ h2.2, i4 _ _ h2.1⟩
+theorem eq_iff_to_slice_eq (g h : Fq12) : g = h ↔ Api.fq12ToSlice g = Api.fq12ToSlice h :=
+  ⟨fun e => by rw [e], to_slice_inj g h⟩
+/-- every 32-byte limb of an encoding is a canonical value below q -/
+theorem limb_lt_q (x : Fq) : beVal (Api.fqToSlice x) < q := by
+  unfold Api.fqToSlice
+  rw [beVal_beBytes 32 x.val (lt_trans x.isLt q_lt_pow)]
+  exact x.isLt
 
 end Sm9.C11
